@@ -21,16 +21,29 @@ ASSUMPTIONS = [
 
 F = ["fb", "fc", "fa"]  # first seen != sorted
 G = ["g2", "g1"]
-H = ["hd", "hb", "ha", "hc"]
+H = ["hd", "h b", "ha", "h[c]"]  # a level with a space and one with brackets
 K = [10, -2, 9]  # string order differs from numeric order
 YC = ["u", "w", "v"]
-VARIANTS = ["str", "cat-ord", "ord-cat", "unused", "num-dtypes"]
+VARIANTS = ["str", "cat-ord", "ord-cat", "unused", "num-dtypes", "big"]
 _FR = {}
 
 
 def frame(n, variant, rot):
     key = (n, variant, rot)
     if key in _FR:
+        return _FR[key]
+    if variant == "big":  # many rows, a dozen levels (two-digit suffixes), integer levels 1..12
+        n = 72 + 12 * (n % 3)
+        idx = [(i * 5 + rot) for i in range(n)]
+        rng = np.random.RandomState(rot)
+        lv_f = [f"l{j}" for j in range(1, 13)]
+        lv_h = [f"h{j}" for j in range(1, 12)]
+        df = pd.DataFrame({
+            "f": [lv_f[i % 12] for i in idx], "g": [G[(i // 3) % 2] for i in idx], "h": [lv_h[(i * 7) % 11] for i in idx], "k": [(i * 5) % 12 + 1 for i in idx],
+            "x": np.round(rng.normal(size=n) * 2 + 3, 3), "z": np.round(rng.normal(size=n) + 1, 3), "y": np.round(rng.normal(size=n), 3), "yc": [YC[i % 3] for i in idx],
+        })
+        order = {"f": sorted(lv_f), "g": sorted(G), "h": sorted(lv_h), "k": sorted(set(df["k"])), "yc": sorted(YC)}
+        _FR[key] = (df, order)
         return _FR[key]
     idx = [(i + rot) for i in range(n)]
     rng = np.random.RandomState(7 * n + rot)
@@ -49,9 +62,9 @@ def frame(n, variant, rot):
     if variant == "cat-ord":
         df["f"] = pd.Categorical(df["f"], categories=["fc", "fa", "fb"])  # unordered: levels get sorted
         df["g"] = pd.Categorical(df["g"], categories=["g2", "g1"], ordered=True)  # declared order respected
-        df["h"] = pd.Categorical(df["h"], categories=["hc", "ha", "hd", "hb"], ordered=True)
+        df["h"] = pd.Categorical(df["h"], categories=["h[c]", "ha", "hd", "h b"], ordered=True)
         order["g"] = ["g2", "g1"]
-        order["h"] = ["hc", "ha", "hd", "hb"]
+        order["h"] = ["h[c]", "ha", "hd", "h b"]
         df["yc"] = pd.Categorical(df["yc"], categories=["w", "v", "u"], ordered=True)
         order["yc"] = ["w", "v", "u"]
     elif variant == "ord-cat":
@@ -119,7 +132,7 @@ def gen_formulas():
         for icpt in (True, False):
             out.append({"resp": "y", "icpt": icpt, "common": [["f", "g"]], "group": [], "rhs": rhs})
     effects = [["1"], ["x"], ["f"], ["f", "x"], ["x", "f"], ["1", "x"], ["1", "f"]]
-    factors = [["h"], ["g", "h"], ["h", "g"], ["k"]]
+    factors = [["h"], ["g", "h"], ["h", "g"], ["k"], ["g", "f"]]  # the last one shares a variable with the effects f, f:x
     for e in effects:
         for fac in factors:
             for zero in (False, True):
@@ -203,15 +216,15 @@ def check_labels(labels, M, df, order, comp_names, what, problems, group=False, 
             if group:
                 eff, _, grp = lab.partition("|")
                 val = np.ones(len(df))
-                pieces = ([] if eff == "1" else eff.split(":")) + grp.split(":")
+                pieces = [("e", q) for q in ([] if eff == "1" else eff.split(":"))] + [("g", q) for q in grp.split(":")]
             else:
-                pieces = [] if lab == "Intercept" else lab.split(":")
+                pieces = [("c", q) for q in ([] if lab == "Intercept" else lab.split(":"))]
                 val = np.ones(len(df))
-            for p in pieces:
+            for role, p in pieces:
                 v, var, lvl = piece_value(p, df, order, comp_names)
                 val = val * v
                 if lvl is not None:
-                    s = seq.setdefault(var, [])
+                    s = seq.setdefault((role, var), [])
                     if lvl not in s:
                         s.append(lvl)
         except KeyError as e:
@@ -221,7 +234,7 @@ def check_labels(labels, M, df, order, comp_names, what, problems, group=False, 
             problems.append(("column-meaning", f"{what}: column {j} labelled {lab!r} does not hold that value"))
     if len(set(labels)) != len(labels):
         problems.append(("labels-unique", f"{what}: duplicate labels {labels}"))
-    for var, lv in seq.items():
+    for (role, var), lv in seq.items():
         key = NAME2COL.get(var, var)
         exp = [str(l) for l in order[key]]
         if var in EXPLICIT_REF and len(lv) == len(exp) - 1:
@@ -291,7 +304,7 @@ def check_case(case, acc):
     c = case["f"]
     df, order = frame(case["n"], case["variant"], case["rot"])
     f = formula_of(c)
-    if case["variant"] == "unused" and "T(f" in f:
+    if case["variant"] in ("unused", "big") and "T(f" in f:
         acc.case([f, case["n"], case["variant"], case["rot"]], "not-encodable")  # C()/T() of an ordered column declaring an unobserved level is refused
         return
     acc.calls += 1
